@@ -81,7 +81,7 @@ def _run_one(item):
                 def reddm():
                     rho = np.asarray(st.reduced_dm(ms, **kw))
                     mu, V, tr, herm = sfx.fock_tensor_moments(rho, False, 1, rho.shape[0])
-                    return [_tolist(mu), _tolist(V), tr]
+                    return [_tolist(mu), _tolist(V), tr, float(np.real(rho[-1, -1]))]
                 _call(out, "reduced_dm:" + key, reddm)
         # Fock probabilities: vacuum and a few single excitations, and marginals vs all_fock_probs / reduced_dm
         pats = [[0] * n] + [[1 if i == j else 0 for i in range(n)] for j in range(n)] + [[2 if i == 0 else (1 if i == n - 1 else 0) for i in range(n)]]
@@ -233,7 +233,9 @@ def judge(chk, cfg, cutoff, it, o):
             if isinstance(rdm, dict):
                 check("reduced_dm", "reduced_dm:" + key, rdm, None, s2, ms)
             else:
-                dl = max(0.0, 1 - rdm[2])
+                # truncation estimate: missing trace, or (the Gaussian state object renormalises the truncated matrix) the
+                # weight of the last retained Fock level
+                dl = max(0.0, 1 - rdm[2]) + (rdm[3] if len(rdm) > 3 else 0.0)
                 if dl < 1e-3:
                     check("reduced_dm", "reduced_dm_mu:" + key, rdm[0], mu, 5 * math.sqrt(dl) + 1e-6, ms)
                     check("reduced_dm", "reduced_dm_cov:" + key, rdm[1], V, 14 * math.sqrt(dl) + 1e-6, ms)
